@@ -221,6 +221,33 @@ def run(ctx):
         else:
             ctx.trace_ok()
     ctx.sample({"mode": "channels", "nch": rq["nch"], "encodings": dict(enc), "key_orders": dict(order)})
+    # channels that differ in polarisation only (one wavelength): each channel is the single-channel result, for the
+    # lens theories too, whatever the first channel's polarisation
+    from holopy.scattering.theory import AberratedMieLens
+    sph_l = Sphere(n=1.59, r=0.5, center=(0.7, 0.5, 3.0))
+    for tname, mk in (("Mie", Mie), ("MieLens", lambda: MieLens(lens_angle=0.8)),
+                      ("AberratedMieLens", lambda: AberratedMieLens(spherical_aberration=[0.3], lens_angle=0.8))):
+        for labs_, pols_ in ((["v", "h", "d"], [(0.0, 1.0), (1.0, 0.0), (1.0, 1.0)]), (["d", "a"], [(1.0, 1.0), (1.0, -1.0)]),
+                             (["h", "v"], [(1.0, 0.0), (0.0, 1.0)])):
+            ctx.case(("polarisation_channels", tname, tuple(labs_)), nontrivial=True)
+            try:
+                arr_ = np.array([list(p_) + [0.0] for p_ in pols_])
+                arr_ = arr_ / np.sqrt((arr_ ** 2).sum(1))[:, None]
+                pol_ = xr.DataArray(arr_, dims=["illumination", "vector"], coords={"illumination": labs_, "vector": ["x", "y", "z"]})
+                dgrid = detector_grid(4, 0.3)
+                multi_f = calc_field(dgrid, sph_l, medium_index=1.33, illum_wavelen=0.66, illum_polarization=pol_, theory=mk())
+                worst_ = 0.0
+                for l_, p_ in zip(labs_, pols_):
+                    one = calc_field(dgrid, sph_l, medium_index=1.33, illum_wavelen=0.66, illum_polarization=p_, theory=mk())
+                    got_ = multi_f.sel(illumination=l_).transpose("vector", "x", "y", "z").values
+                    worst_ = max(worst_, float(np.max(np.abs(got_ - one.transpose("vector", "x", "y", "z").values))))
+            except Exception as e:
+                ctx.violation("channels/polarisation_only/exception", {"theory": tname, "labels": labs_, "exc": repr(e)[:300]})
+                continue
+            if not worst_ <= 1e-12:
+                ctx.violation("channels/polarisation_only/%s" % tname, {"labels": labs_, "defect": worst_})
+            else:
+                ctx.trace_ok()
     # metadata of a multi-channel image: per-channel noise keeps its labels
     try:
         mdet = detector_grid(3, 0.3, extra_dims={"illumination": ["red", "green"]})
